@@ -220,6 +220,13 @@ def sig2_bases(want, seed, quick=True):
         reps, st = scopes.structural_scope(alpha, scopes.SIG2, 2, want, seed, 1, minsize=2)
         stats["B2"] = st
         out += [(conds, cls, "B2") for conds, cls in reps]
+        ndup = 0
+        for c1, c2 in list(zip(scopes.C2, scopes.C2S))[seed % 16::16]:      # duplicated conditionals (two syntactic forms)
+            cls = ref.classify([forms.sem(c1, scopes.SIG2), forms.sem(c2, scopes.SIG2)], full)
+            if cls in want:
+                out.append(([c1, c2], cls, "B2dup"))
+                ndup += 1
+        stats["B2dup"] = ndup
     else:
         n = 0
         for c1, c2 in itertools.combinations(alpha, 2):
